@@ -153,13 +153,17 @@ def add_unique(ctx):
         ctx.assume(Not(a == b))
         e = factory.create(Vertex([float(i), 0.0, 0.0], a), Vertex([float(i), 1.0, 0.0], b), E.Arc([float(i), 0.5, 0.5]))
         existing.append((a, b, e))
-        el.edges.append(e)
     # representation invariant: no two stored edges join the same pair of vertices
     for i in range(m):
         for j in range(i):
             ai, bi, _ = existing[i]
             aj, bj, _ = existing[j]
             ctx.assume(Not(Or(And(ai == aj, bi == bj), And(ai == bj, bi == aj))))
+    for i in range(m):
+        a, b, e = existing[i]
+        got = el.add(e.vertex_1, e.vertex_2, e.data)   # populated through the public API
+        existing[i] = (a, b, got)
+    ctx.prove("populated", len(el.edges) == m)
     x, y = ctx.int("x", 0, 50), ctx.int("y", 0, 50)
     ctx.assume(Not(x == y))
     data = E.Arc([9.0, 9.5, 9.5])
@@ -244,3 +248,100 @@ def is_valid(ctx):
             c = G.cross(p - third, q - third)
             band = band or abs(G.dot(c, c) - TOL * TOL) < 0.75 * TOL * TOL
         ctx.prove("valid-iff-curved-nonzero-noncollinear", band or bool(spec) == bool(got), got=bool(got))
+
+
+# ------------------------------------------------------------------------------ histories
+HIST = ["given", "shift1", "shift2", "shift3", "shift-1", "invert", "invert+shift1", "reorient1", "reorient3", "shift1+invert"]
+
+
+def _apply_history(face, hist, anchor_points):
+    for step in hist.split("+"):
+        if step == "given":
+            pass
+        elif step.startswith("shift"):
+            face.shift(int(step[5:]))
+        elif step == "invert":
+            face.invert()
+        elif step.startswith("reorient"):
+            face.reorient(anchor_points[int(step[8:])])
+
+
+@proof("C07", "face-history/edges-stay-on-their-geometric-edge", cases=[(h, w) for h in HIST for w in ("bottom", "top")],
+       functions=["classy_blocks.construct.flat.face:Face.shift", "classy_blocks.construct.flat.face:Face.invert",
+                  "classy_blocks.construct.flat.face:Face.reorient", EL + "add_from_operation", "classy_blocks.mesh:Mesh.assemble"],
+       note="a face carrying 4 distinct curved edges is shifted / inverted / re-oriented before the operation is built; every "
+            "written entry must still join the two points the user attached that edge to (spline points symbolic)")
+def face_history(ctx):
+    hist, which = ctx.case
+    base = np.array(CUBE[:4]) if which == "bottom" else np.array(CUBE[4:])
+    toks = [E.Spline([ctx.vec(f"s{i}a"), ctx.vec(f"s{i}b")]) for i in range(4)]
+    face = Face(base, list(toks))
+    anchors = {id(toks[i]): (tuple(base[i]), tuple(base[(i + 1) % 4])) for i in range(4)}
+    user_first = {id(toks[i]): np.array(toks[i].curve.array.points[0]) for i in range(4)}
+    _apply_history(face, hist, base)
+    other = Face(np.array(CUBE[4:]) if which == "bottom" else np.array(CUBE[:4]))
+    op = Operation(face, other) if which == "bottom" else Operation(other, face)
+    mesh = Mesh()
+    mesh.add(op)
+    mesh.assemble()
+    entries = [e for e in mesh.edge_list.edges if e.kind == "spline"]
+    ctx.prove("four-entries", len(entries) == 4 and len({id(e.data) for e in entries}) == 4)
+    for k, e in enumerate(sorted(entries, key=lambda e: [id(t) for t in toks].index(id(e.data)))):
+        a, b = anchors[id(e.data)]
+        ends = (tuple(float(x) for x in e.vertex_1.position), tuple(float(x) for x in e.vertex_2.position))
+        ctx.prove(f"edge{k}/joins-the-points-it-was-attached-to", set(ends) == {a, b}, ends=ends)
+        # point order follows the entry's vertex order: the user's first point is next to anchor a
+        first_written = e.point_array[0]
+        expect_first = user_first[id(e.data)] if ends[0] == a else np.array(e.data.curve.array.points[-1])
+        if "invert" not in hist:
+            ctx.prove(f"edge{k}/point-order-follows-vertex-order", ctx.eq(first_written, expect_first))
+
+
+@proof("C07", "assembly-history/each-edge-written-once", cases=["assemble", "assemble-clear-assemble", "assemble-backport", "assemble-backport-backport"],
+       functions=[EL + "add", EL + "find", EL + "clear", "classy_blocks.mesh:Mesh.assemble", "classy_blocks.mesh:Mesh.clear",
+                  "classy_blocks.mesh:Mesh.backport"])
+def assembly_history(ctx):
+    op, toks = op_with_tokens(ctx, "spline")
+    op2 = Operation(Face(np.array(CUBE[4:])), Face(np.array(CUBE[4:]) + np.array([0.0, 0.0, 1.0])))
+    op2.bottom_face.add_edge(0, E.Arc([0.5, -0.2, 1.0]))   # same geometric edge as op's top edge 4-5: defined twice
+    mesh = Mesh()
+    mesh.add(op)
+    mesh.add(op2)
+    steps = ctx.case.split("-")
+    for st in steps:
+        getattr(mesh, st)()
+    ents = mesh.edge_list.edges
+    ctx.prove("thirteen-slots-twelve-entries", len(ents) == 12, n=len(ents))
+    ctx.prove("each-user-edge-exactly-once", sorted(id(e.data) for e in ents) == sorted(id(t) for t in toks))
+    pairs = [frozenset((e.vertex_1.index, e.vertex_2.index)) for e in ents]
+    ctx.prove("no-vertex-pair-twice", len(set(pairs)) == len(pairs))
+    ctx.prove("entries-join-current-vertices", all(e.vertex_1 is mesh.vertices[e.vertex_1.index] and e.vertex_2 is mesh.vertices[e.vertex_2.index] for e in ents))
+    ctx.prove("block-wires-hold-the-listed-edges",
+              all(any(w.edge is e for w in mesh.blocks[0].wire_list) for e in ents))
+
+
+@proof("C07", "OnCurveEdge/parameter-range-follows-vertex-order", cases=[(i, j) for i in range(4) for j in range(4) if i != j],
+       functions=["classy_blocks.items.edges.curve:OnCurveEdge.param_start", "classy_blocks.items.edges.curve:OnCurveEdge.param_end",
+                  "classy_blocks.items.edges.curve:OnCurveEdge.point_array", "classy_blocks.items.edges.curve:OnCurveEdge.length",
+                  "classy_blocks.construct.curves.discrete:DiscreteCurve.discretize", "classy_blocks.construct.curves.curve:CurveBase.get_closest_param"],
+       note="curve = discrete curve through 4 symbolic points; the two vertices sit on curve points i and j (either order)")
+def oncurve_direction(ctx):
+    i, j = ctx.case
+    pts = ctx.mat("c", 4)
+    for a in range(4):
+        for b in range(a):
+            ctx.assume(G.dist2(pts[a], pts[b]) > 0.01)
+    curve = DiscreteCurve(pts)
+    data = E.OnCurve(curve, n_points=5)
+    edge = factory.create(Vertex(pts[i], 0), Vertex(pts[j], 1), data)
+    ctx.prove("parameters-of-the-two-vertices", ctx.eq(edge.param_start, i) and ctx.eq(edge.param_end, j))
+    inner = list(edge.point_array)
+    step = 1 if j > i else -1
+    expect = [pts[k] for k in range(i + step, j, step)]
+    ctx.prove("points-run-from-vertex-1-to-vertex-2", len(inner) == len(expect) and And([ctx.eq(a, b) for a, b in zip(inner, expect)]))
+    chain = [pts[k] for k in range(i, j + step, step)]
+    length = 0
+    for a, b in zip(chain[:-1], chain[1:]):
+        length = length + G.norm(b - a)
+    ctx.prove("length-is-the-curve-length-between-the-vertices", ctx.eq(edge.length, length))
+    ctx.prove("entry-names-vertex-1-then-vertex-2", edge.description.startswith("\tspline 0 1 ("))
